@@ -284,6 +284,7 @@ class Weaver:
                 else:
                     for q, sp in ov['fns'].items():
                         if sp['props'] is None: sp['props'] = ov['props']
+                        sp['ovpath'] = ov['path']
                     ov['items'] = [(pr or ov['props'], t) for pr, t in ov['items']]
                     for a in ov.get('anchors', []):
                         a['props'] = a['props'] or ov['props']
@@ -490,7 +491,7 @@ class Weaver:
             elif disp == 'ignored': attrs.append('verifier::external')
             elif disp == 'nodecreases': attrs.append('verifier::exec_allows_no_decreases_clause')
             if spec: attrs += spec['attrs']
-            cid0 = f"{ov['path'] or '-'}:{qual}"
+            cid0 = f"{(spec and spec.get('ovpath')) or ov['path'] or '-'}:{qual}"
             if attrs:
                 txt = ''.join(f"#[{a}] " for a in attrs)
                 edits.append((f['start'] + len(ind), f['start'] + len(ind), ins(cid0 + ':attr', [], txt)))
